@@ -47,6 +47,7 @@ Pw(k) == 2^k
 \* qinv: gamma*rsqrt(var+eps) after the batch-norm layer's inverse quantizer (= gam * 2^(2-J) codes when there is none);
 \* b / beta: the QUANTIZED bias and beta; bnw_ok: the fused batch-norm layer itself was exported with quantized parameters
 BnVerdicts(ev) ==
+  IF ev.fusable = 0 THEN (IF ev.marked = 1 THEN <<"non_fusable_pair_marked_fused">> ELSE <<>>) ELSE
   (IF \E c \in 1..Len(ev.gam) : ev.inv[c] # ev.qinv[c] \/ ev.fb[c] # (ev.b[c] - ev.mean[c]) * ev.qinv[c] + ev.beta[c]
    THEN <<"bn_fusing_terms_are_not_the_bn_algebra">> ELSE <<>>)
   \o (IF ev.bnw_ok # 1 THEN <<"fused_bn_layer_not_quantized_by_export">> ELSE <<>>)
